@@ -8,7 +8,8 @@
 //!        parent, slice i >= 1 carries one iff bit i of <bits>; `_u<i>`: slice i's transaction bytes do
 //!        not decode.  Arbitrary slot, slice roots, parent ids.  Real `try_reconstruct_block` twice.
 //! `c13_parent_slot_n<N>`  the input class the above exclude: the effective parent is not in an
-//!        earlier slot.  FAILS on /repo (finding).
+//!        earlier slot (found on the original tree, repaired by fix a0f7634: every parent a block
+//!        names must lie in an earlier slot).
 //! `c13_once`  any state with a completed block: NoAction, nothing changes (exactly once).
 //! `c13_noaction`  no last-slice marker / a slice missing / late slice completes once.
 //! `c13_fastpath_n1`  the leader's `add_own_slice` stores the block a follower assembles - NOT
@@ -194,8 +195,19 @@ fn assemble_body<const N: usize, const CLASS_OK: bool>(has_parent: [bool; N], un
     let inp = any_input::<N>();
     let proof_at = vs::any_below(N as u8) as usize;
     let want = reference(&inp, has_parent, undec);
+    // every parent the block names (the first slice's and a switched one) lies in an earlier slot
     let earlier = match &want {
-        Some(p) => p.slot < inp.slot,
+        Some(_) => {
+            let mut ok = inp.parents[0].slot < inp.slot;
+            let mut i = 1;
+            while i < N {
+                if has_parent[i] {
+                    ok = ok && inp.parents[i].slot < inp.slot;
+                }
+                i += 1;
+            }
+            ok
+        }
         None => true,
     };
     if CLASS_OK {
